@@ -3453,6 +3453,13 @@ def cli_main():
         path = os.path.join(root, 'definitions')
         include_dirs.append(path)
 
+    # validate the hex offset before anything is written
+    if args.hex_offset:
+        try:
+            offset = int(args.hex_offset, base=0)
+        except:
+            raise SystemExit('invalid hex offset: {}'.format(args.hex_offset))
+
     constants = {}
     labels = {}
     try:
@@ -3480,11 +3487,6 @@ def cli_main():
     # output an additional file in the Intel HEX format at the given offset
     if args.hex_offset:
         from intelhex import bin2hex
-
-        try:
-            offset = int(args.hex_offset, base=0)
-        except:
-            raise SystemExit('invalid hex offset: {}'.format(args.hex_offset))
 
         bin2hex(args.output, args.output + '.hex', offset)
 
